@@ -3,13 +3,13 @@
 NOTES = ("Technique family: property-based testing and fuzzing. Every check states its property as an executable oracle over generated "
          "inputs / operation histories (pgregory.net/rapid v1.3.0 state machines, exhaustive enumeration of small finite domains, native go fuzzing "
          "in the thorough tier where registered) and shrinks failures to a JSON trace that ./check <id> --replay re-executes without the generator. "
-         "Genuine defects found on the pinned tree were repaired by nine `fix:` commits in /repo (listed in known_findings.json as fixed); two defect "
-         "classes are recorded as open known findings (KF1, KF2), excluded by construction from the generators and re-probed by the C01 check. "
+         "Genuine defects found on the pinned tree were repaired by eleven `fix:` commits in /repo (listed in known_findings.json as fixed); three defect "
+         "classes are recorded as open known findings (KF1, KF2: C01; KF3: C04), excluded by construction from the generators / oracles and re-probed by the C01 and C04 checks. "
          "See DESIGN.md.")
 
 _TRUST = ("Trusted: Go 1.24 toolchain, rapid v1.3.0 (generation/shrinking only; replay does not use it), the harness' reference model and "
           "independent comparators (harness/model.go, kinds.go), the build-tag-guarded read-only walker where used. ")
-_DOMAIN = ("Inputs stay inside the property's stated domain; the known-finding classes KF1/KF2 (known_findings.json) are excluded by construction and counted in the evidence. "
+_DOMAIN = ("Inputs stay inside the property's stated domain; the known-finding classes KF1/KF2/KF3 (known_findings.json) are excluded by construction and counted in the evidence. "
            "Exploration: held on everything generated, no proof of absence.")
 
 TEXTS = {
